@@ -321,7 +321,13 @@ func (d *driver) runMultiproof(w emitter, pid int, pr *proofProg) {
 					e["panic"] = fmt.Sprint(r)
 				}
 			}()
-			proof, err = multiproof.CreateMultiProof(ptr, cfg, Cs, fs, zs)
+			var g tailGuard
+			gsent := cfg.SRS[9]
+			gCs, gzs := guardSlice(&g, Cs, &gsent), guardSlice(&g, zs, uint8(0xa5))
+			proof, err = multiproof.CreateMultiProof(ptr, cfg, gCs, fs, gzs)
+			copy(Cs, gCs) // writes through the guarded copies are reported like writes to the originals
+			copy(zs, gzs)
+			e["tails_unchanged"] = g.ok()
 		}()
 		if pr.Arrival == "" {
 			gateMu.RUnlock()
@@ -383,7 +389,23 @@ func (d *driver) runMultiproof(w emitter, pid int, pr *proofProg) {
 						ve["panic"] = fmt.Sprint(r)
 					}
 				}()
-				ok, verr = multiproof.CheckMultiProof(vtr, cfg, pf, cs, yv, zv)
+				// every slice handed over is the front of a larger array with sentinels behind it
+				var g tailGuard
+				sent := cfg.SRS[9]
+				var ysent fr.Element
+				ysent.SetUint64(0xdecaf)
+				pg := &multiproof.MultiProof{D: pf.D}
+				pg.IPA.L, pg.IPA.R, pg.IPA.A_scalar = guardSlice(&g, pf.IPA.L, sent), guardSlice(&g, pf.IPA.R, sent), pf.IPA.A_scalar
+				gcs, gyv, gzv := guardSlice(&g, cs, &sent), guardSlice(&g, yv, &ysent), guardSlice(&g, zv, uint8(0xa5))
+				ok, verr = multiproof.CheckMultiProof(vtr, cfg, pg, gcs, gyv, gzv)
+				copy(cs, gcs)
+				copy(yv, gyv)
+				copy(zv, gzv)
+				ve["tails_unchanged"] = g.ok()
+				// writes through the guarded copies are reported like writes to the originals
+				copy(pf.IPA.L, pg.IPA.L)
+				copy(pf.IPA.R, pg.IPA.R)
+				pf.D, pf.IPA.A_scalar = pg.D, pg.IPA.A_scalar
 			}()
 			ve["ok"] = ok
 			ve["err"] = verr != nil
@@ -608,13 +630,13 @@ func (d *driver) runMultiproof(w emitter, pid int, pr *proofProg) {
 						}
 					}
 				case "idlie": // lie about the value of an opening whose commitment is the identity (the zero polynomial), prove it as the zero polynomial
-				for a := 0; a < n; a++ {
-					if cs[a].Equal(&banderwagon.Identity) {
-						lie = a
-						break
+					for a := 0; a < n; a++ {
+						if cs[a].Equal(&banderwagon.Identity) {
+							lie = a
+							break
+						}
 					}
-				}
-			case "drop0", "droplast", "dropz": // lie about one opening and leave it (all openings at its index) out of g, h and E
+				case "drop0", "droplast", "dropz": // lie about one opening and leave it (all openings at its index) out of g, h and E
 					lie = 0
 					if pt.To == "droplast" {
 						lie = n - 1
@@ -836,7 +858,10 @@ func (d *driver) runIPA(w emitter, pid int, pr *proofProg) {
 					ve["panic"] = fmt.Sprint(r)
 				}
 			}()
-			ok, verr = ipa.CheckIPAProof(vtr, cfg, C, proof, ptf, res)
+			var g tailGuard
+			pg := ipa.IPAProof{L: guardSlice(&g, proof.L, cfg.SRS[9]), R: guardSlice(&g, proof.R, cfg.SRS[9]), A_scalar: proof.A_scalar}
+			ok, verr = ipa.CheckIPAProof(vtr, cfg, C, pg, ptf, res)
+			ve["tails_unchanged"] = g.ok()
 		}()
 		ve["ok"] = ok
 		ve["err"] = verr != nil
